@@ -48,6 +48,10 @@ def _run(arg):
     return i, rc, bad, se[-300:]
 
 
+def _run_many(args):
+    return [_run(a) for a in args]
+
+
 def tokenize(text):
     return re.findall(r'"[^"\n]*"|\.[a-z]+|:-|<=|>=|!=|[A-Za-z_][A-Za-z_0-9]*|[0-9]+|\s+|.', text)
 
@@ -86,7 +90,12 @@ def check(tier):
     outcomes = {}
     jobs = [(i, t, wd) for i, (k, t) in enumerate(uniq)]
     done = 0
-    for i, rc, bad, se in pmap(_run, jobs, chunksize=32):
+    results = (r for group in pmap_unordered(_run_many, list(chunks(jobs, 64))) for r in group)
+    for i, rc, bad, se in results:
+        done += 1
+        if dl.expired():
+            rep.capped("deadline: %d of %d inputs were run (short strings first, then the token edits seed by seed)" % (done, len(jobs)))
+            break
         rep.add("evaluations")
         kind = uniq[i][0].split(":")[0]
         outcomes[(kind, rc)] = outcomes.get((kind, rc), 0) + 1
